@@ -116,6 +116,9 @@ pub struct Knobs {
     pub inspect_pct: u32,
     /// percent of runs in which the caller keeps iterating after error items
     pub continue_pct: u32,
+    /// (with a continuing caller) plant statements that fail at run time: `let zz = (7 / 0);`
+    /// and rows with such an entry, also inside loops
+    pub failing_stmt_pct: u32,
     /// scale swarm: 0 = ordinary sizes; 1 = hundreds of outputs (257, 300: past u8 indices),
     /// 2 = dozens of inputs (33, 40, 70: past 32-bit masks), 3 = many input X in one row (up to
     /// 10: 1024 expansions), 4 = loop bounds of 2^32 and more, 5 = nesting depth 6-7
@@ -203,6 +206,7 @@ impl Knobs {
             after_none_pct: 0,
             inspect_pct: 0,
             continue_pct: 0,
+            failing_stmt_pct: 0,
             scale: 0,
             max_steps: 256,
         }
@@ -619,6 +623,8 @@ impl<'k> Gen<'k> {
             seed,
             overrides_write,
             in_place: false,
+            alternate_memory: false,
+            hold: 1,
             faults: vec![],
         });
     }
